@@ -225,7 +225,7 @@ func c01(c *core.Ctx, r *core.Report) {
 	// R5 immutability
 	c01Immutable(c, r)
 	// R6 registry A1/A3
-	for _, T := range c.Implementors(c.Iface("container", "SingletonComponentRegistry")) {
+	for _, T := range implementorsBehindFacades(c, "container", "SingletonComponentRegistry") {
 		sub := core.NewReport("C04", c.Tier, 0)
 		c04Explore(c, sub, T)
 		for _, o := range sub.Obls {
